@@ -120,3 +120,18 @@ def afterlife(f, salt=0):
         except Exception:  # noqa: BLE001
             pass
     return f
+
+
+def lived(f, salt=0):
+    """a field as the checks should meet it: not fresh from the constructor but with a past - derived fields were made from it
+    and used (afterlife), its values were written in place with reads in between (rewrite_in_place).  Which of the two
+    happens is a deterministic function of `salt`; the field is exactly what it was."""
+    k = int(salt) % 4
+    if k == 1:
+        afterlife(f, 0)
+    elif k == 2:
+        rewrite_in_place(f)
+    elif k == 3:
+        afterlife(f, 0)
+        rewrite_in_place(f)
+    return f
